@@ -61,6 +61,9 @@ def tplName (c : Config) : String :=
 def get (c : Config) (name : String) : Option CsiMethod :=
   c.methods.find? fun m => !m.operator && m.src == name
 
+/-- the configured replacement names -/
+def dsts (c : Config) : List String := c.methods.map (·.dst)
+
 /-- `method_allows_literal_callers`; `CsiMethods::empty()` (no method list given) has an empty table,
     but then `get` is always `none`, so the table is never consulted with a hit. -/
 def allowsLiteralCallers (_c : Config) (name : String) : Bool :=
